@@ -59,6 +59,16 @@ def generate(rng, tier):
                 if rng.random() < 0.5:
                     a, b = b, a
                 add(oa, ob, g, a, b, "grid" if pos is not None else "equal")
+    # exactly ONE differing byte, at every position of every length 0..200 (thorough: 0..300): a block that is never compared shows
+    for n in range(1, 201 if quick else 301):
+        base = [rng.randrange(256) for _ in range(n)]
+        for pos in range(n):
+            b = list(base)
+            b[pos] ^= rng.choice([0x01, 0x80, 0xFF, 0x20])
+            oa = rng.choice(offs_near) if rng.random() < 0.5 else rng.randrange(0, 4097)
+            ob = rng.choice(offs_near) if rng.random() < 0.5 else rng.randrange(0, 4097)
+            a2, b2 = (base, b) if rng.random() < 0.5 else (b, base)
+            add(oa, ob, rng.choice([0xAA, 0x00, base[0]]), a2, b2, "single-difference")
     # both operands at every offset in the last 40 bytes for a few lengths
     for n in ([5, 31, 33] if quick else [1, 5, 15, 16, 17, 31, 32, 33, 45, 64, 65]):
         for oa in range(0, 41, 1 if not quick else 2):
